@@ -1,7 +1,7 @@
 """C07 — field elements always stay canonical; == is value equality."""
 from core import report
 from core.sm9 import Repo
-from . import shared
+from . import shared, field
 
 
 def run(ctx):
@@ -14,6 +14,7 @@ def run(ctx):
         shared.rule_encaps(repo),
         shared.rule_eq_derived(repo, list(repo.fp_types()) + ["crate::fields::fq2::Fq2", "crate::u256::U256", "crate::Fr", "crate::Fq", "crate::Fq2"]),
         shared.rule_rng(repo),
+        field.rule_inv_none("C07", repo),
     ]
     # the same rules on the release-profile MIR (cfg-dependent code would differ)
     repo_rel = Repo(ctx.rel)
